@@ -11,7 +11,7 @@ def _tag(items, name):
     for it in items or []:
         if isinstance(it, dict):
             it = dict(it)
-            it.setdefault('part', name)
+            it['_part'] = name
         out.append(it)
     return out
 
@@ -62,14 +62,14 @@ def make(ns, parts, budget_split=True):
         out = {'failures': [], 'tried': 0, 'parts': {}}
         # parts whose stage disagreed / whose files broke go first
         order = list(parts)
-        dis_parts = {d.get('part') for d in hints.get('disagreements', []) if isinstance(d, dict)}
+        dis_parts = {d.get('_part') for d in hints.get('disagreements', []) if isinstance(d, dict)}
         order.sort(key=lambda p: 0 if p[0] in dis_parts else 1)
         for name, m in order:
             f = getattr(m, 'search', None)
             if f is None:
                 continue
             h = dict(hints)
-            h['disagreements'] = [d for d in hints.get('disagreements', []) if d.get('part') in (None, name)]
+            h['disagreements'] = [d for d in hints.get('disagreements', []) if d.get('_part') in (None, name)]
             try:
                 r = f(ctx, h)
             except Exception:  # noqa
@@ -84,7 +84,7 @@ def make(ns, parts, budget_split=True):
         return out
 
     def _part_of(f):
-        p = f.get('part') if isinstance(f, dict) else None
+        p = f.get('_part') if isinstance(f, dict) else None
         return mods.get(p)
 
     def shrink(f):
@@ -92,7 +92,7 @@ def make(ns, parts, budget_split=True):
         if m is not None and hasattr(m, 'shrink'):
             g = m.shrink(f)
             if isinstance(g, dict):
-                g.setdefault('part', f.get('part'))
+                g['_part'] = f.get('_part')
             return g
         return f
 
